@@ -107,7 +107,17 @@ pub fn run(p: &Params) -> Report {
         o.msg.micros_valid = true;
         o.msg.huge_per_mille = if p.thorough { 40 } else { 20 };
         let serial;
-        if i < 16 {
+        // with a binary: every (4*bin_every)-th case is a file of many near-maximal messages (> the 512 KiB read buffer of the
+        // file readers), exported through the binary below
+        let big_file = bin.is_some() && (i + 1) % (4 * bin_every) == 0;
+        if big_file {
+            o.msg.huge_per_mille = 850;
+            o.max_msgs = 40;
+            o.huge_garbage = false;
+        }
+        if big_file {
+            serial = false;
+        } else if i < 16 {
             serial = i >= 8;
             let base = ((i % 8) * 4) as u8;
             o.force_shapes = vec![base, base + 1, base + 2, base + 3];
@@ -216,6 +226,9 @@ pub fn run(p: &Params) -> Report {
             // the front door: `adlt convert <file> -o <out>` must write exactly these bytes, and exporting
             // that export must be byte identical
             if i % bin_every == 0 && !c.serial && c.bytes.len() < 4_000_000 {
+                if c.bytes.len() > 600_000 {
+                    rep.inc("bin_exports_of_files_larger_than_the_read_buffer");
+                }
                 binary_export(&mut rep, bin, &c, &export);
             }
         }
